@@ -31,7 +31,7 @@ def _extra_replace():
 
 
 def run(ctx):
-    n = {"quick": 250, "thorough": 2500}[ctx.tier]
+    n = {"quick": 250, "thorough": 1000}[ctx.tier]
     pyranges = os.environ.get("VERIF_C10_PYDIR", os.path.join(core.REPO, "sdk", "python", "arvados"))
 
     def stages(ctx, mult, suffix, off):
